@@ -44,6 +44,12 @@ type context struct {
 	// a branch that ends directly after the tag name with one that went on to an
 	// attribute name. Ignored by eq.
 	tagNameOpen bool
+	// endTagOpen is, in the body of a script or style element, the end of the template
+	// text seen so far if it is the beginning of the element's end tag ("<", "</",
+	// "</scr", "</script"), in lower case, "?" if that differs between the branches of a
+	// conditional, and "" otherwise: the text after the next template node must not
+	// complete the end tag, which neither text node shows to the transition functions.
+	endTagOpen string
 }
 
 // eq returns whether Context c is equal to Context d.
